@@ -367,6 +367,9 @@ type Event struct {
 	Int int64
 }
 
+// CanonTrue reports the truth value of the branch atom's canonical (positive) form.
+func (e *Event) CanonTrue() bool { return e.CondVal != (e.Int&2 != 0) }
+
 // Path is one finished path.
 type Path struct {
 	Events []*Event
